@@ -582,6 +582,12 @@ fn main() {
             let mut input = String::new();
             std::io::Read::read_to_string(&mut std::io::stdin(), &mut input).unwrap();
             for snip in input.split("\n---\n") {
+                if std::env::var("OQ3SIM_TREE").is_ok() {
+                    let p = oq3_syntax::SourceFile::parse_check_lex(snip);
+                    if p.have_parse() {
+                        println!("{:#?}", p.syntax_node());
+                    }
+                }
                 let mut w = World::empty();
                 w.entry = oq3sim::world::Entry::StringPlain { text: snip.to_string() };
                 let run = oq3sim::exec::run_world(&w);
